@@ -31,6 +31,8 @@ func MarshalResource(r Resource, prepath string, fields []string, relData map[st
 	attrs := map[string]any{}
 
 	for _, attr := range r.Attrs() {
+		verifTrace("MarshalResource.attrs", attr.Name)
+
 		for _, field := range fields {
 			if field == attr.Name {
 				attrs[attr.Name] = r.Get(attr.Name)
@@ -47,6 +49,8 @@ func MarshalResource(r Resource, prepath string, fields []string, relData map[st
 	rels := map[string]*json.RawMessage{}
 
 	for _, rel := range r.Rels() {
+		verifTrace("MarshalResource.rels", rel.FromName)
+
 		include := false
 
 		for _, field := range fields {
